@@ -59,11 +59,19 @@ private theorem step_ok {strict : Bool} {P Q : Nat → Prop} (H : Hyp strict P Q
     obtain ⟨h1, h2, h3⟩ := accept_ok H s h hi
     exact ⟨h1, h2, by simpa [step, arrivals] using h3⟩
   | shutdown n =>
-    obtain ⟨h1, h2, h3, _, _, _, h7⟩ := shutdown_ok H s h n he hi
-    refine ⟨?_, ?_, ?_⟩
-    · simp only [step]; rw [valid_append, h1]; simp [valid, okObs]
-    · simp only [step]; rw [pushAll_append]; simpa [pushAll, Hist.push] using h2
-    · simp only [step]; rw [outcomes_append, h7, h3]; simp [outcomes, arrivals]
+    by_cases hf : s.failed = true
+    · -- a failed connection: `shutdown` reports the error, nothing is written
+      have e : step s (.shutdown n) = (s, [.shutdownErr]) := by simp [step, hf]
+      rw [e]
+      exact ⟨by simp [valid, okObs], by simpa [pushAll, Hist.push] using hi, by simp [outcomes, arrivals]⟩
+    · have e : step s (.shutdown n) = ((shutdown s n).1, (shutdown s n).2 ++ [.shutdownOk]) := by
+        simp [step, hf]
+      rw [e]
+      obtain ⟨h1, h2, h3, _, _, _, h7⟩ := shutdown_ok H s h n he hi
+      refine ⟨?_, ?_, ?_⟩
+      · simp only; rw [valid_append, h1]; simp [valid, okObs]
+      · simp only; rw [pushAll_append]; simpa [pushAll, Hist.push] using h2
+      · simp only; rw [outcomes_append, h7, h3]; simp [outcomes, arrivals]
   | complete id =>
     exact ⟨by simp [step, valid], ⟨hi.sent_eq, hi.sent_min, hi.surf_le, hi.largest_ok, hi.incoming_ok⟩,
       by simp [step, outcomes, arrivals]⟩
@@ -393,6 +401,18 @@ theorem C08_client_oracle (ids : List Nat) :
 
 /-! ### non-vacuity: concrete histories -/
 
+/-- **`shutdown` on a failed connection** (the repair of D-05s): once a connection error has been
+    recorded (here: H3_ID_ERROR for a GOAWAY whose identifier increased) `shutdown(n)` reports it,
+    writes no GOAWAY and changes nothing — `sent_closing` included, so the identifiers the peer has
+    seen stay those `C08_server_line` has judged. -/
+theorem C08_shutdown_on_failed_connection (s : State) (n : Nat) (hf : s.failed = true) :
+    step s (.shutdown n) = (s, [.shutdownErr]) := by
+  simp [step, hf]
+
+-- a failed connection (the peer's GOAWAY identifier increased: H3_ID_ERROR): `shutdown` reports the
+-- error `accept` reported and writes no GOAWAY (D-05s, repaired)
+example : (run {} [.arrive 0, .accept, .recvGoaway 4, .accept, .recvGoaway 8, .accept, .shutdown 0, .shutdown 2]).2 =
+    [.surfaced 0, .acceptPending, .acceptErr, .shutdownErr, .shutdownErr] := by decide
 -- shutdown(0) after serving stream 0 announces 4 and refuses stream 4
 example : (run {} [.arrive 0, .accept, .shutdown 0, .arrive 4, .accept]).2 =
     [.surfaced 0, .goaway 4, .shutdownOk, .rejected 4, .acceptPending] := by decide
